@@ -18,3 +18,108 @@ class make_slice_and_pad:
         "length": "(result[0].stop - result[0].start) + result[1][0] + result[1][1] == z1 - z0",
         "flag": "iff(result[2], result[1][0] != 0 or result[1][1] != 0)",
     }
+
+
+# ---------------------------------------------------------------------------
+from pyvc.values import trunc, sand, sor, implies, compare, smin, smax
+
+
+def pad_of(order):
+    """voxels of margin the implementation keeps around the box on each side (derived from the code)"""
+    return smax(order, 1)
+
+
+def win0(c, s, order):
+    """first tomogram index of the crop window on one axis (as the code computes it)"""
+    return trunc(c - s / 2 - pad_of(order))
+
+
+def margin(order):
+    """stencil half-width beyond the two bracketing nodes: spline order 3 reads one more node on each side"""
+    return 1 if order == 3 else 0
+
+
+def sq(x):
+    return x * x
+
+
+def sample(mtx, a, k):
+    """coordinate, on axis a of the cropped block, that affine_transform reads for output voxel k"""
+    return mtx[a, 0] * k[0] + mtx[a, 1] * k[1] + mtx[a, 2] * k[2] + mtx[a, 3]
+
+
+def in_ball(k, shape):
+    r = smin(smin(shape[0], shape[1]), shape[2]) / 2
+    return sq(k[0] - (shape[0] - 1) / 2) + sq(k[1] - (shape[1] - 1) / 2) + sq(k[2] - (shape[2] - 1) / 2) <= sq(r)
+
+
+def cs3(a, b):
+    """Cauchy-Schwarz instance for 3-vectors (proved as lemma `cauchy_schwarz3`, then used as an instance)"""
+    return sq(a[0] * b[0] + a[1] * b[1] + a[2] * b[2]) <= (sq(a[0]) + sq(a[1]) + sq(a[2])) * (sq(b[0]) + sq(b[1]) + sq(b[2]))
+
+
+def centred(k, shape):
+    return (k[0] - (shape[0] - 1) / 2, k[1] - (shape[1] - 1) / 2, k[2] - (shape[2] - 1) / 2)
+
+
+def row(m, a):
+    return (m[a, 0], m[a, 1], m[a, 2])
+
+
+def dot3(a, b):
+    return a[0] * b[0] + a[1] * b[1] + a[2] * b[2]
+
+
+_H = dict(pad_of=pad_of, dot3=dot3, cs3=cs3, centred=centred, row=row, win0=win0, margin=margin, sample=sample, in_ball=in_ball, sq=sq)
+
+
+@contract("acryo._utils:prepare_affine", props=["C02"])
+class prepare_affine:
+    """C02: voxel k of the subtomogram samples tomogram coordinate center + R (k - (shape-1)/2) (z,y,x order);
+    the cropped+padded block is the tomogram window [x0, x1) and every coordinate read for a voxel of the inscribed
+    ball lies (with its interpolation stencil) inside that window."""
+    params = dict(img=T.Arr(3, "real"), center=T.Tuple(T.Real(), T.Real(), T.Real()),
+                  output_shape=T.Tuple(T.Int(lo=1), T.Int(lo=1), T.Int(lo=1)), rot=T.Rot(),
+                  order=T.OneOf(0, 1, 3))
+    helpers = _H
+    requires = []
+    raises = {"SubvolumeOutOfBoundError":
+              "any(win0(c, s, order) + s + 2 * pad_of(order) + 1 <= 0 or win0(c, s, order) >= s0 "
+              "for c, s, s0 in zip(center, output_shape, img.shape))"}
+    native_call = "(lambda r: (np.asarray(r[0]), np.asarray(r[1])))(_mod.prepare_affine(**args))"
+    ensures = {
+        "block_shape": "all(result[0].shape[a] == output_shape[a] + 2 * pad_of(order) + 1 for a in range(3))",
+        "block_is_window":
+            "forall(lambda u0, u1, u2: implies("
+            "0 <= u0 + win0(center[0], output_shape[0], order) < img.shape[0] and "
+            "0 <= u1 + win0(center[1], output_shape[1], order) < img.shape[1] and "
+            "0 <= u2 + win0(center[2], output_shape[2], order) < img.shape[2], "
+            "result[0][u0, u1, u2] == img[u0 + win0(center[0], output_shape[0], order), "
+            "u1 + win0(center[1], output_shape[1], order), u2 + win0(center[2], output_shape[2], order)]), "
+            "(0, result[0].shape[0]), (0, result[0].shape[1]), (0, result[0].shape[2]))",
+        "matrix_linear": "all(close(result[1][a, b], rot.as_matrix()[a, b]) for a in range(3) for b in range(3))",
+        "matrix_offset":
+            "all(close(result[1][a, 3], center[a] - win0(center[a], output_shape[a], order) "
+            "- sum(rot.as_matrix()[a, b] * (output_shape[b] - 1) / 2 for b in range(3))) for a in range(3))",
+        "matrix_affine_row": "result[1][3, 0] == 0 and result[1][3, 1] == 0 and result[1][3, 2] == 0 and result[1][3, 3] == 1",
+        # (iii) every coordinate read for a voxel k of the inscribed ball whose tomogram coordinate is interpolable
+        # lies, with its stencil, inside the block (scipy's mode='constant' returns cval outside [0, n-1])
+        "sample_in_window": {
+            "vars": {"k0": "real", "k1": "real", "k2": "real"},
+            "assume": "in_ball((k0, k1, k2), output_shape) and "
+                      "all(margin(order) <= sample(result[1], a, (k0, k1, k2)) + win0(center[a], output_shape[a], order) "
+                      "<= img.shape[a] - 1 - margin(order) for a in range(3))",
+            "steps": [
+                # Cauchy-Schwarz instances (the general statement is lemma `cauchy_schwarz3` below)
+                ("all(cs3(row(rot.as_matrix(), a), centred((k0, k1, k2), output_shape)) for a in range(3))", "cone0"),
+                ("all(sq(dot3(row(rot.as_matrix(), a), centred((k0, k1, k2), output_shape))) <= "
+                 "sq(min(output_shape) / 2) for a in range(3))", "cone0+opt"),
+                ("all(-output_shape[a] / 2 <= dot3(row(rot.as_matrix(), a), centred((k0, k1, k2), output_shape)) "
+                 "<= output_shape[a] / 2 for a in range(3))", "cone0"),
+                "all(sample(result[1], a, (k0, k1, k2)) == center[a] - win0(center[a], output_shape[a], order) + "
+                "dot3(row(rot.as_matrix(), a), centred((k0, k1, k2), output_shape)) for a in range(3))",
+            ],
+            "show": "all(margin(order) <= sample(result[1], a, (k0, k1, k2)) <= result[0].shape[a] - 1 - margin(order) "
+                    "for a in range(3))",
+        },
+    }
